@@ -229,14 +229,17 @@ def win_quote_table(ctx):
            'a trailing backslash does not trigger quoting (it would escape '
            'the closing quote)')
     ok = False
-    for r in Q.returns(f.node):
-        if r.value is None:
+    for g, b in F.frames(f, 1):
+        if g.module is not f.module:
             continue
-        a = F.atoms(r.value, f)
-        if has_const(a, '') and has_const(a, True) and any(
-                op == 'Eq' and (has_const(l, '') or has_const(rr, ''))
-                for op, l, rr in F.guard_compares(r, f)):
-            ok = True
+        for r in Q.returns(g.node):
+            if r.value is None:
+                continue
+            a = F.atoms(r.value, g, b)
+            if has_const(a, '') and has_const(a, True) and any(
+                    op == 'Eq' and (has_const(l, '') or has_const(rr, ''))
+                    for op, l, rr in F.guard_compares(r, g, b)):
+                ok = True
     ctx.ob(R, 'inner_quote_info|empty-string-quoted', ok, f.node,
            'the empty string is not quoted')
     subs = _regex_const(ctx, F, f, 'sub')
